@@ -275,6 +275,9 @@ pub fn run_check(prop: &dyn DynProp, o: &RunOpts) -> i32 {
     let hang = Duration::from_secs(plan.hang_secs);
     let mut crash_sigs_seen: HashSet<String> = HashSet::new();
     let mut total_crashes = 0u64;
+    let mut total_hangs = 0u64;
+    let mut hang_confirmed: Option<Fail> = None;
+    let mut incomplete_run = false;
     loop {
         let mut all_done = true;
         for s in shards.iter_mut() {
@@ -316,11 +319,15 @@ pub fn run_check(prop: &dyn DynProp, o: &RunOpts) -> i32 {
             if let Some(kind) = crashed {
                 s.child = None;
                 let at = read_progress(&run_dir, s.k).unwrap_or(s.from);
-                crash_events.push((at, kind));
+                crash_events.push((at, kind.clone()));
                 evals_crashed += 1;
                 total_crashes += 1;
                 let next = at + nshards;
-                if next < plan.n_cases && total_crashes < 200 {
+                if kind == "hang" {
+                    total_hangs += 1;
+                }
+                // every hang costs a full watchdog period: stop restarting after a few
+                if next < plan.n_cases && total_crashes < 200 && total_hangs <= 4 {
                     s.from = next;
                     s.segments.push(next);
                     s.last_idx = u64::MAX;
@@ -328,6 +335,9 @@ pub fn run_check(prop: &dyn DynProp, o: &RunOpts) -> i32 {
                     s.child = Some(spawn_worker(id, o.tier, o.seed, s.k, nshards, next, &run_dir));
                 } else {
                     s.done = true;
+                    if next < plan.n_cases {
+                        incomplete_run = true;
+                    }
                 }
             }
         }
@@ -339,7 +349,11 @@ pub fn run_check(prop: &dyn DynProp, o: &RunOpts) -> i32 {
 
     // confirm crashes one at a time in isolation
     for (idx, kind) in &crash_events {
-        let budget = if kind == "hang" { hang * 3 } else { hang };
+        let budget = if kind == "hang" { hang * 2 } else { hang };
+        if kind == "hang" && hang_confirmed.is_some() {
+            // one confirmed hang is enough; further ones are counted, not re-run
+            continue;
+        }
         let r = run_sub(
             &[
                 "one".into(),
@@ -372,6 +386,9 @@ pub fn run_check(prop: &dyn DynProp, o: &RunOpts) -> i32 {
             excluded_resource += 1;
             continue;
         }
+        if fail.sig.starts_with("hang:") {
+            hang_confirmed = Some(fail.clone());
+        }
         if let Some(fid) = known.matches(id, &fail.sig) {
             let what = known.get(&fid).map(|k| k.what.clone()).unwrap_or_default();
             known_lines.entry(fid).or_insert((0, what)).0 += 1;
@@ -403,7 +420,8 @@ pub fn run_check(prop: &dyn DynProp, o: &RunOpts) -> i32 {
             Duration::from_secs(60),
         );
         let case: Value = serde_json::from_str(g.stdout.trim()).unwrap_or(Value::Null);
-        let case = shrink_crash(prop, id, case, &fail.sig, budget);
+        let sbudget = if fail.sig.starts_with("hang:") { Duration::from_secs(8) } else { budget };
+        let case = shrink_crash(prop, id, case, &fail.sig, sbudget);
         let body = json!({"property": id, "status": "violation", "sig": fail.sig, "detail": fail.detail,
             "seed": o.seed, "tier": o.tier.name(), "index": idx, "case": case});
         let p = write_replay(&vdir, id, &body);
@@ -480,6 +498,7 @@ pub fn run_check(prop: &dyn DynProp, o: &RunOpts) -> i32 {
 
     // vacuity
     let mut vacuous: Vec<String> = vec![];
+    let incomplete = incomplete || incomplete_run;
     if violations.is_empty() && !incomplete {
         for c in &plan.required_classes {
             if classes.get(*c).copied().unwrap_or(0) == 0 {
